@@ -245,6 +245,12 @@ func init() {
 				fs, inc = append(fs, f2...), append(inc, i2...)
 				ev["rt_flood"] = e2
 			}
+			if prop == "C14" {
+				// tens of thousands of back-to-back syncs from two callers next to junk traffic and state readers
+				f4, e4, i4 := rtPart(run, "syncstorm", 4, 60, map[string]int{"C14 sync storms judged": 4})
+				fs, inc = append(fs, f4...), append(inc, i4...)
+				ev["rt_syncstorm"] = e4
+			}
 			if prop == "C14" || prop == "C16" {
 				// a node following a scripted committee: syncs arriving while its commit callback runs (C14), shutdown while the
 				// transport is slow inside the send of its COMMIT (C16)
